@@ -19,15 +19,15 @@ MANIFEST = {
     "design_ref": "DESIGN.md 4.8",
     "technique": "Coq proof by structural induction over bijection expression trees (Model/Bij.v, nested-list tensors of any rank) "
                  "+ exact correspondence of the extracted model with real flowjax combinators on generated trees",
-    "text": "26 theorems, all closed under the global context, for an arbitrary carrier and any tree depth/width/rank/axis: for every "
+    "text": "27 theorems, all closed under the global context, for an arbitrary carrier and any tree depth/width/rank/axis: for every "
             "well-constructed tree and correctly shaped input the code-shaped semantics `run` (entry checks at every node, array_split at "
             "cumulative indices, jnp.split+squeeze, expand_dims+concatenate, vmap slices with the condition axis normalised like jax.vmap, "
             "x.at[idx].set, numpy axis normalisation) returns exactly the definition-shaped semantics `den` (axis mod rank, slices at "
             "offsets, take/stack, composition, indexed update), with output of the declared shape and a scalar log-det; the operations `den` "
             "uses are characterised entry by entry as jnp.take / slicing / concatenate / stack; Partial frame property and indexed-entry "
             "property; Invert swaps (all inputs); Scan = Chain; Reshape only re-presents; Chain = composition with additive log-dets, slicing "
-            "and merge_chains (any nesting, flat result) preserve the function (den-level, hence `_partial`: transfers to `run` when both "
-            "chains construct); declared shapes of Stack/Concatenate/Vmap; the pre-fix Stack/Vmap formulas refuted (and shown right for "
+            "and merge_chains (any nesting; flat result, same declared shapes, same result of every method on every input) preserve the "
+            "function; declared shapes of Stack/Concatenate/Vmap; the pre-fix Stack/Vmap formulas refuted (and shown right for "
             "non-negative axes). Tie on every run: random trees (Chain, Scan, Invert, Concatenate, Stack, Vmap broadcast/mapped with "
             "condition axis, Partial with int/slice/int-array/bool-array/tuple indices incl. out-of-range JAX conventions, Reshape, "
             "EmbedCondition over Identity/Loc/Scale/Affine/Flip/Permute/AdditiveCondition), ranks 0-3, EVERY axis in -(r+2)..r+1, compared on "
@@ -817,7 +817,7 @@ def chain_unit(ctx, u, G, rng, n):
                 ctx.violation(sig=f"chain:{m}:{'oracle' if errs else 'model-mismatch'}",
                               what="; ".join(errs) if errs else f"model merge/slice differs from the implementation: mergeinfo {info} vs {len(merged.bijections)} children; "
                                                                  f"merged impl {str(mer)[:100]} model {str(outs[j])[:100]}; slice [{lo}:{hi}]",
-                              case=jcase(spec, m, x, c), found_input=bool(errs), unit=u.name, broken="chain-unit / C08_merge_chains_same_partial / C08_chain_slice_same",
+                              case=jcase(spec, m, x, c), found_input=bool(errs), unit=u.name, broken="chain-unit / C08_merge_chains_same / C08_chain_slice_same",
                               reproducer=REPRO)
         # composition: chain[:i] then chain[i:] is the chain (forward direction)
         if n_kids >= 2:
